@@ -107,3 +107,9 @@ func (w *RecWriterRF) ReadFrom(r io.Reader) (int64, error) {
 	w.Sizes = append(w.Sizes, len(b))
 	return int64(len(b)), err
 }
+
+// FaultWriterSW is a FaultWriter that also implements io.StringWriter (as *os.File, bufio.Writer and bytes.Buffer do):
+// io.WriteString hands strings to WriteString instead of Write.
+type FaultWriterSW struct{ FaultWriter }
+
+func (w *FaultWriterSW) WriteString(s string) (int, error) { return w.Write([]byte(s)) }
